@@ -186,7 +186,9 @@ class MALA(ULA):
 
         # accept/reject
         log_u = np.log(cuqi.distribution.Uniform(low=0, high=1).sample(rng=self.rng))
-        if (log_u <= log_alpha) and (np.isnan(logpi_eval_star) == False):
+        if (log_u <= log_alpha) and \
+           (not np.isnan(logpi_eval_star)) and \
+           (not np.isinf(logpi_eval_star)):
             return x_star, logpi_eval_star, g_logpi_star, 1
         else:
             return x_t.copy(), target_eval_t, g_target_eval_t.copy(), 0
